@@ -81,8 +81,8 @@ def r_choice_encoding(rule, root=None):
     lib = A_.load("fidget-jit/src/lib.rs", root)
     consts = {c.get("name"): A_.unparse(c.get("e") or {}).replace(" ", "") for c in A_.find(lib, "Const")}
     for n_, v_ in (("CHOICE_LEFT", "Left"), ("CHOICE_RIGHT", "Right"), ("CHOICE_BOTH", "Both")):
-        t_ = consts.get(n_, "")
-        if t_.startswith("Choice::%sas" % v_):
+        t_ = consts.get(n_, "").strip("()")
+        if t_.startswith("Choice::%sas" % v_) or t_ == "Choice::%s" % v_:
             rule.ok("%s is Choice::%s" % (n_, v_), file="fidget-jit/src/lib.rs")
         else:
             rule.bad("encoding|const|%s" % n_, "%s is `%s`; it must be Choice::%s" % (n_, t_, v_), "fidget-jit/src/lib.rs")
